@@ -755,6 +755,21 @@ def check_pass(case, cc, dev, desc, fmt, sel, p, requested, reduction, nm, s, te
         if fmt == 'LIS' and len(tok_rows[f]) < len(cols_idx) and any(len(t) >= case['width'] for t in tok_rows[f]):
             sig = SIG_LIS_RUN
         dev(O_ROWS, sig, '%s: row %d has %d tokens for %d columns (width %d): %r' % (where, f, len(tok_rows[f]), len(cols_idx), case['width'], tok_rows[f][:8]))
+    if rows_ok:
+        # the form of every token: floating point columns in the requested decimal format, integer columns without decimals
+        # (the value tolerance below is half a unit of the digits printed: fewer digits than requested would pass it)
+        import re as _re
+        ff = case['float_format']
+        nd = int(ff[1:-1])
+        ffloat = {'f': (r'^[-+]?\d+\.\d{%d}$' % nd) if nd else r'^[-+]?\d+$',
+                  'e': (r'^[-+]?\d\.\d{%d}e[-+]\d{2,3}$' % nd) if nd else r'^[-+]?\de[-+]\d{2,3}$'}.get(ff[-1])
+        for r_ in tok_rows[:50]:
+            for k_, tok_ in zip(cols_idx, r_):
+                form = ffloat if p['dtypes'][k_].startswith('float') else r'^[-+]?\d+$'
+                if form is not None and not _re.match(form, tok_) and tok_.lower() not in ('nan', 'inf', '-inf'):
+                    dev(O_VALUE, 'token-not-in-the-requested-format', '%s: column %s (%s): %r is not what format %r prints' % (
+                        where, p['names'][k_], p['dtypes'][k_], tok_, ff if p['dtypes'][k_].startswith('float') else '.0f'))
+                    break
     written = None          # frame index of every written row, when it can be told
     x_unassigned = False
     if sel[0] == 'slice':
